@@ -5,6 +5,7 @@ shrinker may drop updates freely."""
 import copy
 import datetime
 import json
+import random
 
 # --------------------------------------------------------------------------- price ladder (own)
 _CUT = ((2, 0.01), (3, 0.02), (4, 0.05), (6, 0.1), (10, 0.2), (20, 0.5), (30, 1), (50, 2), (100, 5), (1000, 10))
@@ -55,6 +56,7 @@ DEFAULT_KNOBS = dict(
     version_on_suspend=0.7,
     dyadic=False,  # prices/sizes/spacings exactly representable (boundary scenarios)
     removal_plan=None,  # [(runner index, adjustment factor)] forces these removals
+    p_handicap=0.12,  # runners carry a non-zero handicap (handicap-style market: runner key = (selection id, handicap))
 )
 
 
@@ -251,6 +253,10 @@ def gen_market(rng, idx, knobs=None, t0=None, event_id=None):
         "market_time": None,
         "updates": [],
     }
+    # handicaps are drawn from a side generator (a function of values already drawn) so that the main stream is unchanged
+    hrng = random.Random("hc|%s|%s" % (market["id"], t0))
+    if not line and hrng.random() < k["p_handicap"]:
+        market["hc"] = {str(s): (hrng.choice([-2.5, -1.5, -1.0, -0.5, 0.5, 1.0, 1.5, 2.5]) if hrng.random() < 0.85 else 0) for s in sels}
     runners = {s: RunnerModel(rng, s, line=line, dyadic=dyadic) for s in sels}
     # adjustment factors (sum ~100 in WIN markets)
     raw = [rng.uniform(1, 10) for _ in sels]
@@ -411,6 +417,7 @@ def _closing_update(rng, market, last, pt, k):
 
 
 def market_definition(market, upd):
+    mt = upd.get("mt") or market["market_time"]  # "mt": the market was rescheduled (new marketTime from this update on)
     md = {
         "bspMarket": market["bsp"],
         "turnInPlayEnabled": True,
@@ -421,8 +428,8 @@ def market_definition(market, upd):
         "numberOfWinners": market["winners"],
         "bettingType": market["betting_type"],
         "marketType": market["market_type"],
-        "marketTime": iso(market["market_time"]),
-        "suspendTime": iso(market["market_time"]),
+        "marketTime": iso(mt),
+        "suspendTime": iso(mt),
         "bspReconciled": upd["bspr"],
         "complete": True,
         "inPlay": upd["ip"],
@@ -436,7 +443,7 @@ def market_definition(market, upd):
         "countryCode": "GB",
         "discountAllowed": True,
         "timezone": "Europe/London",
-        "openDate": iso(market["market_time"]),
+        "openDate": iso(mt),
         "version": upd["ver"],
         "name": "sim",
         "eventName": "sim event",
@@ -449,6 +456,8 @@ def market_definition(market, upd):
     for i, s in enumerate(market["runners"]):
         rs = upd["r"][str(s)]
         rd = {"status": rs["st"], "sortPriority": i + 1, "id": s}
+        if (market.get("hc") or {}).get(str(s)):
+            rd["hc"] = market["hc"][str(s)]
         if rs.get("af") is not None:
             rd["adjustmentFactor"] = rs["af"]
         if rs.get("bsp") is not None:
@@ -494,6 +503,8 @@ def serialise_lines(market):
                 ch["ltp"] = cur["ltp"]
             if ch:
                 ch["id"] = s
+                if (market.get("hc") or {}).get(str(s)):
+                    ch["hc"] = market["hc"][str(s)]
                 ch["tv"] = r2(sum(c for _, c in cur["trd"]))
                 rc.append(ch)
         if rc:
@@ -516,6 +527,8 @@ def image_line(market, j):
         ch = {"id": s, "atb": cur["atb"], "atl": cur["atl"], "trd": cur["trd"], "tv": r2(sum(c for _, c in cur["trd"]))}
         if cur["ltp"] is not None:
             ch["ltp"] = cur["ltp"]
+        if (market.get("hc") or {}).get(str(s)):
+            ch["hc"] = market["hc"][str(s)]
         for k in ("atb", "atl", "trd"):
             if not ch[k]:
                 del ch[k]
